@@ -108,6 +108,18 @@ def cases(tier, seed):
                             c["reuse"] = 1
                             out.append(c)
 
+    # ---- grad mode of the caller: under torch.no_grad() / with operands that require grad
+    for n in ([3] if not thorough else [2, 3, 6]):
+        for (m, d) in mdt:
+            for M in (0, 1):
+                for opkind in ("dense", "mfree"):
+                    for neig in sorted({1, n}):
+                        for mode in ("lowest", "uppest"):
+                            for gm in ("ng", "rg"):
+                                c = _sym_case(m, M, opkind, "-", n, neig, mode, "sep", d)
+                                c["gm"] = gm
+                                out.append(c)
+
     # ---- batch
     for n in ([3] if not thorough else [2, 3, 5]):
         for b in BATCH:
@@ -265,10 +277,22 @@ def run_symeig(cfg):
             if tM is not None:
                 tM.copy_(M)
     else:
+        if cfg.get("gm") == "rg":
+            A = A.clone().requires_grad_()
+            M = None if M is None else M.clone().requires_grad_()
         Aop = herm_op(cfg["opkind"], A, pb["aux"])
         Mop = None if M is None else herm_op("mfree" if cfg["opkind"] != "dense" else "dense", M)
     torch.manual_seed(20240 + n)
-    o = call(symeig, Aop, neig=neig, mode=cfg["mode"], M=Mop, method=cfg["method"], **_fwd_opts(cfg))
+    if cfg.get("gm") == "ng":
+        with torch.no_grad():
+            o = call(symeig, Aop, neig=neig, mode=cfg["mode"], M=Mop, method=cfg["method"], **_fwd_opts(cfg))
+    else:
+        o = call(symeig, Aop, neig=neig, mode=cfg["mode"], M=Mop, method=cfg["method"], **_fwd_opts(cfg))
+    if cfg.get("gm") == "rg":
+        A = A.detach()
+        M = None if M is None else M.detach()
+        if o.exc is None:
+            o.value = tuple(t.detach() for t in o.value)
     if o.exc is not None:
         return {"viol": [V("exception:%s" % o.exc_sig, {"exc": repr(o.exc)[:300]})], "obs": {"exc": o.exc_sig},
                 "status": "exception"}
